@@ -236,6 +236,65 @@ pub fn main(args: &[String]) -> i32 {
                     },
                 }
             },
+            "oodframe" => {
+                // an out-of-domain frame built through the public API from random elements: encode, decode with every reader, and
+                // parse the decoded frame back into the values it was made from
+                use winter_air::proof::{OodFrame, TraceOodFrame};
+                use winter_air::LagrangeKernelEvaluationFrame;
+                use winter_math::fields::{f128, f62, f64, CubeExtension, QuadExtension};
+                use winter_math::FieldElement;
+                let g = |k: &str| c.d[k].as_u64().unwrap() as usize;
+                fn run<E: FieldElement, H: winter_crypto::ElementHasher<BaseField = E::BaseField>>(main: usize, aux: usize, lag: usize, ccols: usize, rng: &mut Rng, fails: &mut Fails, count: &mut usize, what: &str) {
+                    let mut el = || -> E {
+                        let bs: Vec<E::BaseField> = (0..E::EXTENSION_DEGREE).map(|_| E::BaseField::from(rng.next() as u32) * E::BaseField::from(rng.next() as u32)).collect();
+                        E::slice_from_base_elements(&bs)[0]
+                    };
+                    let cur: Vec<E> = (0..main + aux).map(|_| el()).collect();
+                    let nxt: Vec<E> = (0..main + aux).map(|_| el()).collect();
+                    let lagv: Vec<E> = (0..lag).map(|_| el()).collect();
+                    let evals: Vec<E> = (0..ccols).map(|_| el()).collect();
+                    let r = guarded(|| {
+                        let mut f = OodFrame::default();
+                        let tf = TraceOodFrame::new(cur.clone(), nxt.clone(), main, if lag > 0 { Some(LagrangeKernelEvaluationFrame::new(lagv.clone())) } else { None });
+                        f.set_trace_states::<E, H>(&tf);
+                        f.set_constraint_evaluations(&evals);
+                        f
+                    });
+                    match r {
+                        Ok(f) => {
+                            roundtrip_generic::<OodFrame>(what, &f, fails, count);
+                            // the values survive: decode from the frame's own bytes and parse
+                            use winter_utils::{Deserializable, Serializable};
+                            let back = guarded(|| OodFrame::read_from_bytes(&f.to_bytes()).ok().and_then(|d| d.parse::<E>(main, aux + (lag > 0) as usize, ccols).ok()));
+                            match back {
+                                Ok(Some((tf2, ev2))) => {
+                                    let lag2: Vec<E> = tf2.lagrange_kernel_frame().map(|l| l.inner().to_vec()).unwrap_or_default();
+                                    if tf2.current_row() != &cur[..] || tf2.next_row() != &nxt[..] || ev2 != evals || lag2 != lagv {
+                                        fails.add(format!("serde/{what}/values-changed"), format!("{what}: the out-of-domain frame decodes to other values"), json!({"main": main, "aux": aux, "lag": lag, "ccols": ccols}));
+                                    }
+                                },
+                                Ok(None) => fails.add(format!("serde/{what}/undecodable"), format!("{what}: the out-of-domain frame cannot be decoded / parsed from its own encoding"), json!({"main": main, "aux": aux, "lag": lag, "ccols": ccols})),
+                                Err(p) => fails.add(format!("serde/{what}/panic"), format!("{what}: decoding panics: {p}"), json!({"main": main, "aux": aux, "lag": lag, "ccols": ccols})),
+                            }
+                        },
+                        Err(p) => {
+                            eprintln!("SPEC-DRIFT {what}: the frame cannot be built: {p}");
+                        },
+                    }
+                }
+                let (m, a, l, cc) = (g("main"), g("aux"), g("lag"), g("ccols"));
+                let what = format!("ood_frame/f{}x{}", g("field"), g("ext"));
+                match (g("field"), g("ext")) {
+                    (62, 1) => run::<f62::BaseElement, Blake3_256<f62::BaseElement>>(m, a, l, cc, &mut rng, &mut fails, &mut count, &what),
+                    (62, 2) => run::<QuadExtension<f62::BaseElement>, Blake3_256<f62::BaseElement>>(m, a, l, cc, &mut rng, &mut fails, &mut count, &what),
+                    (62, 3) => run::<CubeExtension<f62::BaseElement>, Blake3_256<f62::BaseElement>>(m, a, l, cc, &mut rng, &mut fails, &mut count, &what),
+                    (64, 1) => run::<f64::BaseElement, Blake3_256<f64::BaseElement>>(m, a, l, cc, &mut rng, &mut fails, &mut count, &what),
+                    (64, 2) => run::<QuadExtension<f64::BaseElement>, Blake3_256<f64::BaseElement>>(m, a, l, cc, &mut rng, &mut fails, &mut count, &what),
+                    (64, 3) => run::<CubeExtension<f64::BaseElement>, Blake3_256<f64::BaseElement>>(m, a, l, cc, &mut rng, &mut fails, &mut count, &what),
+                    (128, 1) => run::<f128::BaseElement, Blake3_256<f128::BaseElement>>(m, a, l, cc, &mut rng, &mut fails, &mut count, &what),
+                    _ => run::<QuadExtension<f128::BaseElement>, Blake3_256<f128::BaseElement>>(m, a, l, cc, &mut rng, &mut fails, &mut count, &what),
+                }
+            },
             k => {
                 eprintln!("harness: unknown serde case {k}");
                 return 2;
